@@ -101,6 +101,7 @@ def _seq_strategy(tier):
         st.tuples(st.just('update'), st.integers(0, 9)),
         st.tuples(st.just('update'), st.integers(0, 9)),
         st.tuples(st.just('restore_high'), st.sampled_from(HIGH)),
+        st.tuples(st.just('restore_high'), st.integers(1, 12), st.booleans()),
         st.tuples(st.just('copy_in'), st.lists(st.sampled_from(HIGH) | st.integers(1, 12), min_size=1, max_size=3)),
         st.tuples(st.just('reopen')),
         st.tuples(st.just('pack')),
@@ -126,7 +127,16 @@ def _seq_strategy(tier):
             lambda t: t[0] + [['alloc', t[1]], ['store_issued', True], ['update', t[2]]] + ([['update', t[2]]] if t[3] else [])
             + [['alloc', t[4]], ['pack'], ['alloc', t[5]]] + t[6]),
     })
-    return free, phased
+    # demo storages: an issued id whose store was aborted, then the id generator comes round again (it redraws
+    # at random when it meets an existing id: base object placed right behind the allocated run)
+    def demo_case(t):
+        r, a, e, more, kind, pre = t
+        return {'kind': kind, 'base_oids': [r + a + e], 'rand': [r],
+                'ops': pre + [['alloc', a], ['store_issued', False], ['alloc', e + 1 + more]]}
+    phased_demo = st.tuples(st.integers(1, 8), st.integers(1, 3), st.integers(0, 2), st.integers(0, 3),
+                            st.sampled_from(['demo-map-base', 'demo-fs-base']),
+                            st.lists(st.tuples(st.just('alloc'), st.integers(1, 2)).map(list), max_size=1)).map(demo_case)
+    return free, st.one_of(phased, phased, phased_demo)
 
 
 class RandStream:
@@ -295,7 +305,13 @@ def execute(case):
                     out.label('store-aborted')
             elif k == 'update':
                 # a new revision of an existing object (gives a later pack something to free)
-                pres = sorted(present() - {Z64})       # (not the database root)
+                pres = []
+                for o in sorted(present() - {Z64}):       # (not the database root; not un-created objects)
+                    try:
+                        cur.load(o, '')
+                        pres.append(o)
+                    except KeyError:
+                        pass
                 if pres and not isinstance(cur, DemoStorage):
                     commit_records(cur, [(pres[op[1] % len(pres)], rec())])
                     out.label('update')
@@ -305,12 +321,25 @@ def execute(case):
                     oid = sorted(issued)[-1]
                     if oid not in present() and op[1]:
                         commit_records(cur, [(oid, rec())])
+                    elif oid not in present():
+                        # ... or its commit fails after the store: the id stays issued, never stored
+                        from ZODB.Connection import TransactionMetaData
+                        t = TransactionMetaData()
+                        cur.tpc_begin(t)
+                        cur.store(oid, Z64, rec(), '', t)
+                        cur.tpc_abort(t)
+                        out.label('issued-id-stored-then-aborted')
             elif k == 'restore_high' and isinstance(cur, FileStorage):
                 oid = p64(op[1])
                 if oid in issued:
                     continue
                 tid = p64(max(u64(cur.lastTransaction()), 1) + 1000)
-                commit_records(cur, [(oid, rec())], restore=True, tid=tid)
+                if len(op) > 2 and op[2] and oid not in present():
+                    # the record of an un-created object (no data, no back-pointer) copied in under that id
+                    commit_records(cur, [(oid, None)], restore=True, tid=tid)
+                    out.label('restore-uncreation-record')
+                else:
+                    commit_records(cur, [(oid, rec())], restore=True, tid=tid)
                 state['high_event'] = True
                 out.label('restore-arbitrary-id')
             elif k == 'copy_in' and isinstance(cur, FileStorage) and cur.lastTransaction() == Z64:
